@@ -320,21 +320,13 @@ fn decode_binary_view_inner<const VALIDATE_UTF8: bool>(
 
     // Capacity for all long strings plus room for one short string
     let mut values_capacity = inline_str_max_len;
-    let mut inline_capacity = 0;
     for row in rows.iter() {
         let len = decoded_len(row, options);
         if len > inline_str_max_len {
             values_capacity += len;
-        } else if VALIDATE_UTF8 {
-            inline_capacity += len;
         }
     }
     let mut values = MutableBuffer::new(values_capacity);
-    let mut view_utf8_validation_buffer = if VALIDATE_UTF8 {
-        Vec::with_capacity(inline_capacity)
-    } else {
-        Vec::new()
-    };
 
     let null_sentinel = null_sentinel(options);
     let mut views = vec![0_u128; len];
@@ -356,21 +348,19 @@ fn decode_binary_view_inner<const VALIDATE_UTF8: bool>(
                 val.iter_mut().for_each(|o| *o = !*o);
             }
 
+            // Every value has to be valid on its own: validating the concatenation of the
+            // values would accept a code point split across two values
+            if VALIDATE_UTF8 {
+                std::str::from_utf8(val).unwrap();
+            }
+
             views[i] = make_view(val, 0, start_offset as u32);
 
             if decoded_len <= inline_str_max_len {
-                if VALIDATE_UTF8 {
-                    view_utf8_validation_buffer.extend_from_slice(val);
-                }
                 values.truncate(start_offset);
             }
         }
         *row = &row[offset..];
-    }
-
-    if VALIDATE_UTF8 {
-        std::str::from_utf8(&values).unwrap();
-        std::str::from_utf8(&view_utf8_validation_buffer).unwrap();
     }
 
     // SAFETY:
